@@ -552,8 +552,8 @@ from ..core import Check, Layer, Outcome  # noqa: E402
 # interpreter on the program, and by its signature in the observed run) and the case is counted in an `excluded-*`
 # class instead of being judged, so that the search continues past it.  A case carrying "no_exclude": true (the
 # saved replays of the findings) is always judged.  VERIF_C13_NO_EXCLUDE=D5,D6 switches the exclusion off for a run.
-EXCLUDE_D5 = False  # repaired in /repo (7cc1920): the shape is searched again; a foreign task.cancel() and a hosted scope's own cancellation pending on one task together
-EXCLUDE_D5B = True  # residue of D5: a foreign task.cancel() that is already pending (postponed by a shield) when a scope that gets cancelled is entered
+EXCLUDE_D5 = True  # a foreign task.cancel() and a hosted scope's own cancellation pending on one task together (a repair was committed and taken back: DESIGN 7.3, D5)
+EXCLUDE_D5B = False  # (subsumed by D5 again)  # residue of D5: a foreign task.cancel() that is already pending (postponed by a shield) when a scope that gets cancelled is entered
 EXCLUDE_D29 = True  # a foreign task.cancel() postponed by ignore_cancellation() is forgotten when the awaited future ends cancelled
 EXCLUDE_D6 = False  # repaired in /repo (86899fe): the shape is searched again; a scope cancelled while its host task is suspended exits without a CancelledError passing it
 
